@@ -19,12 +19,16 @@ IDS = [2, 5, 9, 4]           # label k of a spike means cluster id IDS[k] (gappe
 BW = [(1, 1), (1, 3), (2, 5), (2, 8), (3, 7)]
 RATES = [1, 2, 4, 1024]
 DTYPES = ['int32', 'int64', 'uint16', 'uint32']
+# how the spike times are handed over; integer types carry whole seconds (samples = k * rate)
+TIME_TYPES = ['float64', 'float64', 'int64', 'uint32', 'list']
 RULE = (
     "(grid) exhaustive trains: inter-spike gaps in {0,1,2,3} samples, length<=5 (quick) / <=7 "
     "(thorough; lengths 6-7 over a 2-cluster labelling alphabet), every labelling over <=3 "
     "clusters (<=4 for length<=4), (bin,window) in {(1,1),(1,3),(2,5),(2,8),(3,7)} samples; the "
     "label dtype and the sample rate in {1,2,4,1024} cycle with the case index (times = "
-    "samples/rate, bin and window = multiples of 1/rate, all exact in binary floating point). "
+    "samples/rate, bin and window = multiples of 1/rate, all exact in binary floating point); the times are handed over as float64 seconds or, scaled to "
+    "whole seconds, as int64 / uint32 arrays or a list of ints; uint16 label vectors carry id 65535 "
+    "in half of the cases. "
     "Each case is evaluated for several cluster-id lists: None, ascending with an absent id, "
     "reversed with an absent id first. (rand) Hypothesis trains up to 400 spikes. "
     "Oracle: O(n^2) pair loop with exact integer arithmetic; symmetrised shape 2*half+1, "
@@ -46,7 +50,8 @@ def _grid_cases(Lmax):
                 for bw in BW:
                     i += 1
                     yield {'k': 'grid', 'gaps': list(gaps), 'labels': list(labels), 'bw': list(bw),
-                           'dt': DTYPES[i % 4], 'rate': RATES[(i // 4) % 4]}
+                           'dt': DTYPES[i % 4], 'rate': RATES[(i // 4) % 4],
+                           'tt': TIME_TYPES[(i // 16) % 5]}
 
 
 @st.composite
@@ -60,7 +65,7 @@ def _rand_case(draw):
     w = draw(st.integers(1, 60))
     return {'k': 'rand', 'gaps': gaps, 'labels': labels, 'bw': [b, w],
             'dt': draw(st.sampled_from(DTYPES)), 'rate': draw(st.sampled_from(RATES)),
-            'start': draw(st.integers(0, 1000))}
+            'start': draw(st.integers(0, 1000)), 'tt': draw(st.sampled_from(TIME_TYPES))}
 
 
 def drivers(tier):
@@ -94,14 +99,26 @@ def check(case):
     samples = [case.get('start', 0)]
     for g in gaps:
         samples.append(samples[-1] + g)
-    cl = [IDS[k] for k in labels]
-    times = np.array(samples, dtype=np.float64) / rate
+    ids_map = list(IDS)
+    if case['dt'] == 'uint16' and sum(gaps) % 2:
+        ids_map[1] = 65535          # an id at the top of the label dtype's range
+    cl = [ids_map[k] for k in labels]
+    tt = case.get('tt', 'float64')
+    if tt == 'float64':
+        times = np.array(samples, dtype=np.float64) / rate
+    else:
+        # whole seconds: every sample index is a multiple of the rate; bin and window scale too
+        samples = [s_ * rate for s_ in samples]
+        b, w = b * rate, w * rate
+        secs = [s_ // rate for s_ in samples]
+        times = secs if tt == 'list' else np.array(secs, dtype=tt)
     clusters = np.array(cl, dtype=case['dt'])
     bin_size = b / rate
     window = w / rate
     half = int(Fraction(w, 2 * b))  # floor, exact
     present = sorted(set(cl))
     absent = [c for c in (7, 0, 11) if c not in present]
+    IDS_ = ids_map
     id_lists = [None, present + absent[:1], absent[1:2] + present[::-1]]
     info = {'half': half, 'edge': False}
     for ids in id_lists:
